@@ -558,9 +558,12 @@ def check_C19(tier):
 
 
 def check_C18(tier):
-    from . import comp_hedge
+    from . import comp_hedge, comp_esarchive
     v = check_C18run(tier)
     st, cases = comp_hedge.run(v, tier)
+    v.coverage["states"] += st
+    v.coverage["transitions"] += cases
+    st, cases = comp_esarchive.run(v, tier)
     v.coverage["states"] += st
     v.coverage["transitions"] += cases
     return v
